@@ -130,7 +130,9 @@ class Obs:
     """raw observation of a real repository after one command"""
     def __init__(self, sb: Sandbox):
         self.cache = sb.cache_objects()          # rel addr -> {bytes, mode, dirmode, ino, kind}
-        ino2addr = {v['ino']: k for k, v in self.cache.items()}
+        ino2addrs = {}
+        for k, v in self.cache.items():
+            ino2addrs.setdefault(v['ino'], []).append(k)
         self.ws = {}
         for rel, k in sb.workspace_files().items():
             base = rel.split('/')[-1]
@@ -141,7 +143,8 @@ class Obs:
                 xd = sb.path('.xvc') + '/'
                 k['addr'] = tgt[len(xd):] if tgt.startswith(xd) else None
             elif k['kind'] == 'file':
-                k['addr'] = ino2addr.get(k['ino'])
+                k['addrs'] = sorted(ino2addrs.get(k['ino'], []))
+                k['addr'] = k['addrs'][0] if k['addrs'] else None
             self.ws[rel] = k
         paths = sb.store_map('xvc-path')
         metas = sb.store_map('xvc-metadata')
@@ -158,6 +161,15 @@ class Obs:
                 continue
             self.recs[p] = {'entity': e, 'cur': cur.get(e), 'hist': digs.get(e, []), 'method': STORE_METHOD.get(meth.get(e)),
                             'tob': STORE_TOB.get(tob.get(e))}
+            # one inode can carry several cache names (a hard-linked file re-committed under another digest):
+            # a workspace hard link is reported as the link of its path's recorded object when that is one of them
+            k = self.ws.get(p)
+            if k and k.get('kind') == 'file' and len(k.get('addrs', [])) > 1 and cur.get(e):
+                d = cur[e]
+                from xvcbin import cache_rel
+                want = cache_rel(d['algorithm'], ''.join(f'{b:02x}' for b in d['digest']), ext_of(p))
+                if want in k['addrs']:
+                    k['addr'] = want
 
 
 def addr_parts(rel):
